@@ -109,6 +109,18 @@ def run(ctx):
         batches = sorted({1, max(1, n - 1), n, n + 1, 7, 65000}) if n <= 101 else sorted({1, n - 1, 7, 65000})
         desc = lambda: {"n": n, "structure": D.data_struct(d), "batches": batches}
         mech_sfx = " (structure with empty %s)" % "/".join(sorted(seen)) if seen else ""
+        # the same along another axis (data_split / data_merge take an axis argument): a nested structure of (k, n) arrays
+        if i % 4 == 0 and n >= 2:
+            k_rows = int(rng.integers(1, 4))
+            d2 = {"a": rng.normal(size=(k_rows, n)), "g": {"b": rng.normal(size=(k_rows, n)), "t": (rng.integers(0, 9, (k_rows, n)),)}, "l": [rng.normal(size=(k_rows, n))]}
+            b2 = int(rng.choice([1, max(1, n - 1), 7]))
+            try:
+                parts2 = list(D.data_split(d2, b2, axis=-1))
+                merged2 = D.data_to_numpy(D.data_merge(*parts2, axis=-1))
+                ctx.check("merge(split(d,b))==d", same(merged2, d2) and len(parts2) == -(-n // b2), lambda: {"n": n, "rows": k_rows, "batch": b2, "axis": -1, "merged_struct": D.data_struct(merged2)},
+                          mechanism="split/merge along axis=-1 (nested)")
+            except Exception as e:
+                ctx.violation("merge(split(d,b))==d", ctx.exc_witness(e, n=n, rows=k_rows, batch=b2, axis=-1), mechanism="split/merge along axis=-1 raises (nested)")
         for b in batches:
             try:
                 parts = list(D.data_split(d, b))
